@@ -22,12 +22,19 @@ MwReplace(dst, src, n) == SubSeq(src, 1, n) \o SubSeq(dst, n + 1, 8)     \* top 
 MwPad(v, off)        == [v EXCEPT ![off + 1] = @ ^^ 128]
 MwSeparator(v)       == [v EXCEPT ![8] = @ ^^ 1]
 
-\* randomness is "generic" for a refresh with n shares when every value drawn is non-zero and
-\* the XOR of each group of n - 1 consecutive values is non-zero: then every share must change
+\* Randomness is "generic" for a refresh when, within every group of values drawn for one word
+\* (n - 1 64-bit values, or 2(n - 1) 32-bit values on the 32-bit masked back end), every
+\* non-empty subset has a non-zero XOR.  Share deltas of the scheme are XORs of such subsets
+\* (rotated), so under generic randomness every share word must change.  The condition is
+\* evaluated on the logged tape; for degenerate tapes only value preservation is demanded.
 XorAll(ws) == FoldLeft(LAMBDA acc, w : WXor(acc, w), WZero, ws)
-Generic(tape, n) ==
-  /\ Len(tape) > 0 /\ Len(tape) % (n - 1) = 0
-  /\ \A i \in 1..Len(tape) : tape[i] # WZero
-  /\ \A g \in 0..((Len(tape) \div (n - 1)) - 1) : XorAll(SubSeq(tape, g * (n - 1) + 1, (g + 1) * (n - 1))) # WZero
+Low32(w) == <<0, 0, w[3], w[4]>>
+GenericGroup(G) == \A sub \in (SUBSET (1..Len(G))) \ {{}} :
+                      FoldLeft(LAMBDA acc, i : IF i \in sub THEN WXor(acc, G[i]) ELSE acc, WZero, [i \in 1..Len(G) |-> i]) # WZero
+Generic(tape, n, w64) ==
+  LET g  == IF w64 = 1 THEN n - 1 ELSE 2 * (n - 1)
+      tp == IF w64 = 1 THEN tape ELSE [i \in 1..Len(tape) |-> Low32(tape[i])]
+  IN /\ Len(tape) > 0 /\ Len(tape) % g = 0
+     /\ \A k \in 0..((Len(tape) \div g) - 1) : GenericGroup(SubSeq(tp, k * g + 1, (k + 1) * g))
 AllSharesChanged(before, after) == \A i \in 1..Len(before) : before[i] # after[i]
 =========================================================================
